@@ -104,7 +104,11 @@ func CorpusHistories(scratch string, names map[string]bool) ([]*History, []strin
 				return []*TxSpec{s.TxStake(s.User(2), a.Addr, 1)}
 			}
 			return nil
-		}, func(g *Genesis) { easyParams(g); g.Params.MinValidatorStake = rigo(10) }},
+		}, func(g *Genesis) {
+			easyParams(g)
+			g.Params.MinValidatorStake = rigo(10)
+			g.Params.MinSelfStakeRatio = 50
+		}},
 		// governance lowers the maximum validator count from 3 to 2: the block after the parameters
 		// change must drop the third validator — also on a node restarted right at that boundary
 		{"validator-count-lowered-by-governance", 3, 2, 11, func(s *Sim, h int64) []*TxSpec {
@@ -316,6 +320,51 @@ func CorpusHistories(scratch string, names map[string]bool) ([]*History, []strin
 			g.Params.LazyRewardBlocks = 2
 			g.Params.MinVotingPeriodBlocks, g.Params.MaxVotingPeriodBlocks, g.Params.LazyApplyingBlocks = 1, 3, 1
 		}},
+		// a successful contract call whose INNER frame is the first to look at account X and then reverts:
+		// X (whose native nonce is ahead of what the EVM trie last stored) must come out untouched
+		{"inner-frame-reverts-after-first-touch", 1, 3, 8, func(s *Sim, h int64) []*TxSpec {
+			deploy := func(from Key, prog []byte, name string) *TxSpec {
+				t := s.baseTx(6, from, make([]byte, 20))
+				t.Data, t.Gas, t.Note = deployer(prog), 400000, "evm-deploy:"+name
+				return t
+			}
+			x := s.User(1)
+			switch h {
+			case 2:
+				return SeqNonce([]*TxSpec{deploy(s.User(0), progProbeRevert(), "probe-revert"), deploy(s.User(0), progCallIgnoring(), "call-ignoring"),
+					deploy(s.User(0), progStore(s.rng), "store")})
+			case 3: // X is stored in the EVM trie by a contract transaction of its own
+				if c := s.contractOf("store"); c != nil {
+					t := s.baseTx(6, x, c)
+					t.Data, t.Gas, t.Note = word([]byte{3}), 200000, "script-call"
+					return []*TxSpec{t}
+				}
+			case 4, 5: // ... then moves its native nonce ahead
+				return []*TxSpec{s.TxTransfer(x, s.User(2).Addr, "1000")}
+			case 6:
+				if p, o := s.contractOf("probe-revert"), s.contractOf("call-ignoring"); p != nil && o != nil {
+					t := s.baseTx(6, s.User(0), o)
+					t.Data, t.Gas, t.Note = append(word(p), word(x.Addr)...), 300000, "evm-inner-frame-reverts-after-first-touch"
+					return []*TxSpec{t}
+				}
+			case 7: // X's next native transaction still carries the right nonce
+				return []*TxSpec{s.TxTransfer(x, s.User(2).Addr, "7")}
+			}
+			return nil
+		}, nil},
+		// two evidence items against two DIFFERENT validators in one block (and a third one against an
+		// address that is no delegatee): each named validator is slashed once, nobody else
+		{"two-evidence-items-in-one-block", 3, 2, 7, func(s *Sim, h int64) []*TxSpec {
+			switch h {
+			case 2:
+				return []*TxSpec{s.TxStake(s.User(0), s.Val(0).Addr, 4), s.TxStake(s.User(1), s.Val(1).Addr, 6)}
+			case 4:
+				s.scriptEvidence = [][]byte{s.Val(0).Addr, s.Val(1).Addr, s.User(1).Addr}
+			case 5:
+				s.scriptEvidence = [][]byte{s.Val(2).Addr, s.User(0).Addr}
+			}
+			return nil
+		}, func(g *Genesis) { easyParams(g); g.Params.SlashRatio = 30 }},
 		// downtime: with window 10 and minimum 8 the third miss inside the window (blocks 4, 6, 8) is the
 		// one that takes the validator below the minimum: it must lose all stake in that very block
 		{"downtime-at-exact-threshold", 3, 2, 14, func(s *Sim, h int64) []*TxSpec {
